@@ -402,6 +402,19 @@ CONTRACTS = [
       ensures={"result": "all(count(result, k) == (1 if k in E(self) and node in fst(k) and sel(self, k, order, size, False) else 0) + "
                          "(1 if k in E(self) and node in snd(k) and sel(self, k, order, size, False) else 0) for k in Key)"},
       properties=["C02", "C08"]),
+    # per-node view of the same numbers: every node exactly once (a dict), its value the degree under the same filter
+    Contract("degree_sequence[DirectedHypergraph]", "hypergraphx/measures/degree.py", ["degree_sequence"], properties=["C02", "C08"],
+      params={"hg": "Obj[DirectedHypergraph]", "order": "Opt[Int]", "size": "Opt[Int]"}, result="Map[Int,Int]", pure=True,
+      requires={"wf": "wf(hg)"},
+      raises={"ValueError": "order is not None and size is not None"},
+      ensures={"dom": "all((n in result) == (n in V(hg)) for n in Node)",
+               "val": "all(result[n] == card({k for k in E(hg) if (n in fst(k) or n in snd(k)) and sel(hg, k, order, size, False)}) for n in V(hg))"}),
+    C("degree_sequence", params={"order": "Opt[Int]", "size": "Opt[Int]"}, result="Map[Int,Int]", pure=True,
+      requires={"wf": "wf(self)"},
+      raises={"ValueError": "order is not None and size is not None"},
+      ensures={"dom": "all((n in result) == (n in V(self)) for n in Node)",
+               "val": "all(result[n] == card({k for k in E(self) if (n in fst(k) or n in snd(k)) and sel(self, k, order, size, False)}) for n in V(self))"},
+      properties=["C02", "C08"]),
     Contract("degree[DirectedHypergraph]", "hypergraphx/measures/degree.py", ["degree"], properties=["C02", "C08"],
       params={"hg": "Obj[DirectedHypergraph]", "node": "Node", "order": "Opt[Int]", "size": "Opt[Int]"}, result="Int", pure=True,
       requires={"wf": "wf(hg)"},
